@@ -27,6 +27,8 @@ struct Rec {
     exp: Expect,
     /// which references apply (glibc, zoneinfo)
     refs: (bool, bool),
+    /// the reference command lines that reproduce this query ("F path" / "T string", then "Q t" / "M l offs")
+    cmds: (String, String),
 }
 
 fn python() -> String {
@@ -56,13 +58,15 @@ struct Batch {
     p_in: Vec<u8>,
     g_recs: Vec<Rec>,
     p_recs: Vec<Rec>,
+    cur: String,
 }
 
 impl Batch {
     fn new() -> Self {
-        Batch { g_in: vec![], p_in: vec![], g_recs: vec![], p_recs: vec![] }
+        Batch { g_in: vec![], p_in: vec![], g_recs: vec![], p_recs: vec![], cur: String::new() }
     }
     fn load(&mut self, path: &Path, glibc: bool, py: bool) {
+        self.cur = format!("F {}", path.display());
         if glibc {
             writeln!(self.g_in, "F {}", path.display()).unwrap();
         }
@@ -70,13 +74,14 @@ impl Batch {
             writeln!(self.p_in, "F {}", path.display()).unwrap();
         }
     }
-    fn q(&mut self, t_glibc: i64, t_py: i64, rec: Rec) {
+    fn q(&mut self, t_glibc: i64, t_py: i64, mut rec: Rec) {
         if rec.refs.0 {
             writeln!(self.g_in, "Q {t_glibc}").unwrap();
-            self.g_recs.push(Rec { what: rec.what.clone(), exp: rec.exp.clone(), refs: rec.refs });
+            self.g_recs.push(Rec { what: rec.what.clone(), exp: rec.exp.clone(), refs: rec.refs, cmds: (self.cur.clone(), format!("Q {t_glibc}")) });
         }
         if rec.refs.1 {
             writeln!(self.p_in, "Q {t_py}").unwrap();
+            rec.cmds = (self.cur.clone(), format!("Q {t_py}"));
             self.p_recs.push(rec);
         }
     }
@@ -84,10 +89,12 @@ impl Batch {
         let line = format!("M {l} {}", offs.iter().map(|o| o.to_string()).collect::<Vec<_>>().join(" "));
         if rec.refs.0 {
             writeln!(self.g_in, "{line}").unwrap();
-            self.g_recs.push(Rec { what: rec.what.clone(), exp: rec.exp.clone(), refs: rec.refs });
+            self.g_recs.push(Rec { what: rec.what.clone(), exp: rec.exp.clone(), refs: rec.refs, cmds: (self.cur.clone(), line.clone()) });
         }
         if rec.refs.1 {
             writeln!(self.p_in, "{line}").unwrap();
+            let mut rec = rec;
+            rec.cmds = (self.cur.clone(), line.clone());
             self.p_recs.push(rec);
         }
     }
@@ -108,13 +115,13 @@ fn compare(refname: &str, recs: &[Rec], answers: &[String], glibc: bool, st: &mu
                     p.len() == 2 && p[0].parse::<i32>() == Ok(*off) && p[1] == abbr
                 };
                 if !ok {
-                    return Err(Failure::new("ref", format!("{}: tz-rs reports offset {off} dst {dst} abbreviation {abbr:?} fields {fields:?}; {refname} reports {a:?}", r.what), json!({"what": r.what, "reference": refname, "reference_answer": a})));
+                    return Err(Failure::new("ref", format!("{}: tz-rs reports offset {off} dst {dst} abbreviation {abbr:?} fields {fields:?}; {refname} reports {a:?}", r.what), json!({"what": r.what, "reference": refname, "reference_answer": a, "load": r.cmds.0, "query": r.cmds.1})));
                 }
             }
             Expect::Set(s) => {
                 let got: Vec<i64> = if a == "-" { vec![] } else { a.split_whitespace().filter_map(|x| x.parse().ok()).collect() };
                 if &got != s {
-                    return Err(Failure::new("ref", format!("{}: tz-rs finds instants {s:?}; the instants implied by {refname} are {got:?}", r.what), json!({"what": r.what, "reference": refname, "reference_answer": a})));
+                    return Err(Failure::new("ref", format!("{}: tz-rs finds instants {s:?}; the instants implied by {refname} are {got:?}", r.what), json!({"what": r.what, "reference": refname, "reference_answer": a, "load": r.cmds.0, "query": r.cmds.1})));
                 }
             }
         }
@@ -122,8 +129,64 @@ fn compare(refname: &str, recs: &[Rec], answers: &[String], glibc: bool, st: &mu
     Ok(())
 }
 
+/// Re-execute one saved comparison: ask the named reference the saved query again and compare with tz-rs's current answer.
 pub fn replay(_kind: &str, case: &Value) -> Result<(), String> {
-    Err(format!("C10 failures are re-checked by re-running the check (the failing query is described in the replay file): {}", case["what"].as_str().unwrap_or("")))
+    let load = case["load"].as_str().unwrap_or("");
+    let query = case["query"].as_str().unwrap_or("");
+    let refname = case["reference"].as_str().unwrap_or("glibc");
+    if load.is_empty() || query.is_empty() {
+        // "real file refused" failures carry only the file
+        let what = case["what"].as_str().unwrap_or("");
+        let path = if Path::new(what).exists() { PathBuf::from(what) } else { crate::run::verif_dir().join("build/zoneinfo").join(what) };
+        if path.is_file() {
+            return TimeZone::from_tz_data(&std::fs::read(&path).map_err(|e| e.to_string())?).map(|_| ()).map_err(|e| format!("{}: real file refused: {e:?}", path.display()));
+        }
+        return Err(format!("replay file carries no query: {what}"));
+    }
+    let glibc = refname.starts_with("glibc");
+    let verif_buf = crate::run::verif_dir();
+    let verif = verif_buf.as_path();
+    let scratch = verif.join("build/c10");
+    let _ = std::fs::create_dir_all(&scratch);
+    let inp = scratch.join("replay.in");
+    std::fs::write(&inp, format!("{load}\n{query}\n")).map_err(|e| e.to_string())?;
+    let ans = if glibc {
+        run_ref(&mut Command::new(verif.join("build/glibc_ref")), &inp, &scratch.join("replay.out"))?
+    } else {
+        let mut pc = Command::new(python());
+        pc.arg(verif.join("refs/zoneinfo_ref.py"));
+        run_ref(&mut pc, &inp, &scratch.join("replay.out"))?
+    };
+    let ans = ans.first().cloned().unwrap_or_default();
+    // tz-rs side
+    let zone = if let Some(path) = load.strip_prefix("F ") {
+        TimeZone::from_tz_data(&std::fs::read(path).map_err(|e| e.to_string())?).map_err(|e| format!("{path}: refused: {e:?}"))?
+    } else {
+        let read: fn(&str) -> Result<Vec<u8>, Box<dyn std::error::Error + Send + Sync + 'static>> = |_| Err("no file".into());
+        TimeZoneSettings::new(&[], read).parse_posix_tz(load.strip_prefix("T ").unwrap_or("")).map_err(|e| format!("TZ string refused: {e:?}"))?
+    };
+    let zr = zone.as_ref();
+    let right = load.contains("/right/");
+    let leaps: Vec<(i64, i32)> = zr.leap_seconds().iter().map(|l| (l.unix_leap_time(), l.correction())).collect();
+    let mut st = Stats::new();
+    let parts: Vec<&str> = query.split_whitespace().collect();
+    let rec = if parts[0] == "Q" {
+        let t: i64 = parts[1].parse().map_err(|_| "bad query")?;
+        // the saved query is on the reference's scale: for right/ files that is the leap-count scale
+        let u = if right { oleap::g(&leaps, t).ok_or("no instant")? } else { t };
+        let ty = zr.find_local_time_type(u).map_err(|e| format!("lookup at {u} failed: {e:?}"))?;
+        let dt = DateTime::from_timespec(u, 0, zr).map_err(|e| format!("{e:?}"))?;
+        let fields = if right { None } else { Some((dt.year() as i64, dt.month() as i64, dt.month_day() as i64, dt.hour() as i64, dt.minute() as i64, dt.second() as i64)) };
+        Rec { what: format!("{load} / {query}"), exp: Expect::Type(ty.ut_offset(), ty.is_dst(), abbr_of(ty), fields), refs: (glibc, !glibc), cmds: Default::default() }
+    } else {
+        let l: i64 = parts[1].parse().map_err(|_| "bad query")?;
+        let cv = cal::civil_from_unix(l as i128);
+        let found = DateTime::find(cv.y as i32, cv.mo as u8, cv.d as u8, cv.h as u8, cv.mi as u8, cv.s as u8, 0, zr).map_err(|e| format!("find failed: {e:?}"))?;
+        let mut set: Vec<i64> = found.into_inner().iter().filter_map(|k| if let FoundDateTimeKind::Normal(d) = k { Some(d.unix_time()) } else { None }).collect();
+        set.sort();
+        Rec { what: format!("{load} / {query}"), exp: Expect::Set(set), refs: (glibc, !glibc), cmds: Default::default() }
+    };
+    compare(refname, &[rec], &[ans], glibc, &mut st).map_err(|f| f.summary)
 }
 
 fn restricted_sentence(dr: &mut Drawer) -> String {
@@ -228,7 +291,7 @@ pub fn run(ctx: &Ctx) -> Outcome {
                         if after_last && has_rule {
                             st.class("governed_by_footer");
                         }
-                        b.q(t_g, u, Rec { what: format!("{name} at u={u} ({kind})"), exp: Expect::Type(t.ut_offset(), t.is_dst(), abbr_of(t), fields), refs: (true, !right) });
+                        b.q(t_g, u, Rec { what: format!("{name} at u={u} ({kind})"), exp: Expect::Type(t.ut_offset(), t.is_dst(), abbr_of(t), fields), refs: (true, !right), cmds: Default::default() });
                     }
                     Err(TzError::NoAvailableLocalTimeType) if after_last && !has_rule => {
                         st.exclude("rule-less file at/after its last transition: NoAvailableLocalTimeType (references extrapolate)");
@@ -274,7 +337,7 @@ pub fn run(ctx: &Ctx) -> Outcome {
                             } else {
                                 st.class("mktime_unique");
                             }
-                            b.m(l, &offs, Rec { what: format!("{name} local time {:04}-{:02}-{:02}T{:02}:{:02}:{:02}", cv.y, cv.mo, cv.d, cv.h, cv.mi, cv.s), exp: Expect::Set(set), refs: (true, true) });
+                            b.m(l, &offs, Rec { what: format!("{name} local time {:04}-{:02}-{:02}T{:02}:{:02}:{:02}", cv.y, cv.mo, cv.d, cv.h, cv.mi, cv.s), exp: Expect::Set(set), refs: (true, true), cmds: Default::default() });
                         }
                     }
                 }
@@ -337,6 +400,7 @@ pub fn run(ctx: &Ctx) -> Outcome {
                 continue;
             }
             writeln!(b.g_in, "T {s}").unwrap();
+            b.cur = format!("T {s}");
             st.class("tz_strings");
             let mut us = vec![];
             for _ in 0..6 {
@@ -352,7 +416,7 @@ pub fn run(ctx: &Ctx) -> Outcome {
                 let t = zr.find_local_time_type(u).map_err(|e| Failure::new("ref", format!("{s:?} lookup {u}: {e:?}"), json!({"what": s})))?;
                 let dt = DateTime::from_timespec(u, 0, zr).map_err(|e| Failure::new("ref", format!("{e:?}"), json!({"what": s})))?;
                 st.nontrivial(&(&s, u));
-                b.q(u, u, Rec { what: format!("TZ={s:?} at u={u}"), exp: Expect::Type(t.ut_offset(), t.is_dst(), abbr_of(t), Some((dt.year() as i64, dt.month() as i64, dt.month_day() as i64, dt.hour() as i64, dt.minute() as i64, dt.second() as i64))), refs: (true, false) });
+                b.q(u, u, Rec { what: format!("TZ={s:?} at u={u}"), exp: Expect::Type(t.ut_offset(), t.is_dst(), abbr_of(t), Some((dt.year() as i64, dt.month() as i64, dt.month_day() as i64, dt.hour() as i64, dt.minute() as i64, dt.second() as i64))), refs: (true, false), cmds: Default::default() });
             }
         }
         let gi = scratch.join(format!("s{shard}-glibc.in"));
